@@ -46,8 +46,9 @@ reference.  Together with `repo_readonly` the library keeps no mutable package-l
 table does not break this, a cache, pool or scratch buffer does. -/
 theorem globals_immutable : ∀ g ∈ Gen.globals, g.2.2.1 = "value" ∨ g.2.2.1 = "table" := by decide
 
-/-- the unchanged tree has exactly one package-level variable, the constant `transform.alt25 = 2^25` (informative: the
-obligation is `globals_immutable`, which other read-only variables would also meet) -/
-example : Gen.globals.length = 1 := by decide
+/-- non-vacuity on a sample table: a scalar constant and a ranged-over sign table pass, a mutex would not -/
+example : (∀ g ∈ [("transform", "alt25", "value", "= math.Pow(2, 25)"), ("operated", "signs", "table", "= []int64{-1, 1}")],
+    g.2.2.1 = "value" ∨ g.2.2.1 = "table") ∧
+    ¬ (∀ g ∈ [("common", "mu", "ref", "sync.Mutex")], g.2.2.1 = "value" ∨ g.2.2.1 = "table") := by decide
 
 end SpatialId.C19
